@@ -595,13 +595,15 @@ def part_a(R: Run):
     # the long histories (cache capacity, allocator churn) are started first: the wall time is that of the longest job
     weight = lambda j: sum(len(o[2]) if o[0] == "bk" else (40 if o[0] == "tr" else 1) for o in j[1])  # noqa: E731
     jobs.sort(key=weight, reverse=True)
-    results = run_jobs(payload, jobs, min(14, os.cpu_count() or 4))
+    results = _settle_worker_errors(R, payload, jobs, run_jobs(payload, jobs, min(14, os.cpu_count() or 4)))
 
     fresh: Dict[str, dict] = {}
     hist_ops: Dict[str, list] = {}
     size_lines: list = []
     for (hid, ops), res in zip(jobs, results):
         hist_ops[hid] = ops
+        if res is None:
+            continue
         line = f"c19 hist {ts} {es_big if hid.startswith('capacity') else es} {lean_ops(ops, rng)}"
         if isinstance(res, str):
             R.corr(line, lambda r=res: r, sig="hist|worker-error")
@@ -728,8 +730,10 @@ def part_unified(R: Run):
     rng.shuffle(kinds)
     jobs = [(f"unified-{i}-{kinds[i % len(kinds)]}", gen_unified(rng, W, R.pick(30, 40), kinds[i % len(kinds)]))
             for i in range(R.pick(6, 60))]
-    results = run_jobs(payload, jobs, min(6, os.cpu_count() or 4))
+    results = _settle_worker_errors(R, payload, jobs, run_jobs(payload, jobs, min(6, os.cpu_count() or 4)))
     for (hid, ops), res in zip(jobs, results):
+        if res is None:
+            continue
         line = f"c19 uhist {ts} {es} {lean_uops(ops, rng)}"
         if isinstance(res, str):
             R.corr(line, lambda r=res: r, sig="uhist|worker-error")
@@ -771,6 +775,25 @@ def soft_cache_sizes(R: Run, size_lines: list):
     R.count("cache-sizes-agree", agree)
     if unread:
         A.note("sizes of the CRS construction / transformer caches not readable on this tree: not compared")
+
+
+def _settle_worker_errors(R, payload, jobs, results):
+    """A history whose worker PROCESS failed (server and the one-interpreter fallback both) says nothing about odc-geo:
+    it is run once more on its own; if the process fails again and such histories are isolated (at most two of the run)
+    they are left out with a note in the evidence instead of being compared with the model as if "ERR:worker" were what
+    the code answered.  More than two failing worker processes stay in the correspondence (something systematic)."""
+    bad = [i for i, r in enumerate(results) if isinstance(r, str) and r.startswith("ERR:worker")]
+    for i in bad:
+        results[i] = guarded_worker(payload, jobs[i][1])
+    still = [i for i in bad if isinstance(results[i], str) and results[i].startswith("ERR:worker")]
+    if bad:
+        R.count("history-worker-process-retried", len(bad))
+    if 0 < len(still) <= 2:
+        for i in still:
+            R.notes.append(f"history {jobs[i][0]} not evaluated: worker process failed twice ({results[i][:160]})")
+            R.count("history-worker-process-failed|not-evaluated")
+            results[i] = None
+    return results
 
 
 def guarded_worker(payload, ops):
